@@ -54,6 +54,8 @@ PREREQUISITES = {
         ("C19", "the hopping resolver is fed with (T1, T2, T3) of the frame number", sel("C19.R1", file=".py")),
         ("C13", "'one copy is delivered': the copy is an RxMsg that DATAInterface.send_msg drops when validate() refuses it",
          VALID_ACCEPTED),
+        ("C10", "the copy handed to a recipient is made for the recipient's negotiated header version (on version 0 a suppressed "
+                "burst delivers nothing at all)", sel("C10.R1")),
     ],
     "C03": [
         ("C02", "'during the clock tick whose frame number equals FN': every clock tick has to reach every transceiver's "
@@ -62,6 +64,9 @@ PREREQUISITES = {
          sel("C09.R1")),
         ("C12", "the clock generator runs as long as one transceiver is powered on", sel("C12.R3")),
         ("C13", "'put on the air' ends in DATAInterface.send_msg, which drops what validate() refuses", VALID_ACCEPTED),
+        ("C12", "'power-off discards everything still queued' - of the transceivers the command addresses, not of others: every "
+                "transceiver owns its child list and queue", sel("C12.R2", "C12.R8")),
+        ("C02", "... and every list of transceivers is a list of its own", sel("C02.R5", "C02.R7")),
     ],
     "C04": [
         ("C01", "C04 decides gen_msg() / parse_msg() against the layout one call at a time; that every call works on the message's "
@@ -72,7 +77,8 @@ PREREQUISITES = {
                 "leaves the socket are chosen on the forwarding path", sel("C10.R1")),
     ],
     "C05": [
-        ("C12", "POWERON / POWEROFF status and side effects", sel("C12.R2", "C12.R4", "C12.R6")),
+        ("C12", "POWERON / POWEROFF status and side effects; RXTUNE / TXTUNE values stay in force until the next RXTUNE / TXTUNE",
+         sel("C12.R1", "C12.R2", "C12.R4", "C12.R6")),
         ("C02", "SETFH / RXTUNE / TXTUNE side effects: the received parameters become the configuration in use, in the received "
                 "order, on the addressed transceiver only", sel("C02.R2", "C02.R5", "C02.R6", "C02.R8")),
         ("C07", "SETFH side effect: the transceiver then hops according to the received parameters", sel("C07.", file=".py")),
@@ -97,7 +103,7 @@ PREREQUISITES = {
          sel("C01.R5", "C01.R6", "C01.R7")),
         ("C04", "what the recipient's L1 observes is the datagram: the encoder has to follow the layout", sel("C04.R1")),
         ("C03", "'keeps the sender's frame number': the message that goes on the air is the one that was queued, unchanged",
-         either(sel("C03.R3", key=("with their own frame number",)), sel("C03.R6"))),
+         either(sel("C03.R3", key=("with their own frame number",)), sel("C03.R6"), sel("C03.R2", key=("everything queued stays as it was",)))),
         ("C05", "'uses the header version negotiated by the recipient'", sel("C05.R5", key=("SETFORMAT", "header version", "hdr_ver"))),
     ],
     "C12": [
@@ -105,6 +111,8 @@ PREREQUISITES = {
          sel("C03.R1", "C03.R5")),
         ("C14", "'the shared clock generator runs iff ...': nothing on the clock thread's path may raise", sel("C14.R11")),
         ("C09", "starting / stopping the shared clock generator takes effect", sel("C09.R3", "C09.R4")),
+        ("C05", "every power command that is acknowledged was handed to the command handler (a reply replayed from a memory of "
+                "earlier datagrams acknowledges a command that was not executed)", sel("C05.R1", key=("in a row",))),
     ],
     "C14": [
         ("C05", "'malformed control commands are answered with an error status or ignored, and the transceiver goes on serving'",
@@ -119,6 +127,7 @@ PREREQUISITES = {
         ("C01", "a capture record is the Msg.gen_msg() encoding, read back through parse_msg()", sel("C01.")),
         ("C13", "append_msg() encodes, and encoding validates first: every protocol-valid message has to be accepted",
          VALID_ACCEPTED),
+        ("C14", "'reading returns ... without raising': nothing on the capture reader's path may raise", sel("C14.R5")),
     ],
     "C17": [
         ("C16", "the PDU definitions are compositions of the codec's building blocks", sel("C16.")),
@@ -128,7 +137,8 @@ PREREQUISITES = {
     ],
     "C18": [
         ("C13", "the NOPE indication FakeTRX builds has to validate, else it is dropped instead of sent", VALID_ACCEPTED),
-        ("C02", "the suppression marking is per recipient: every recipient gets a copy of its own", sel("C02.R4")),
+        ("C02", "the suppression marking is per recipient: every recipient gets a copy of its own; only a running recipient is "
+                "handed a burst at all (a powered-off one emits no indication)", sel("C02.R1", "C02.R4")),
     ],
     "C19": [
         ("C01", "the Python decomposition must not be served from a memo whose entries can be mutated", sel("C01.R7", file="gsm_shared.py")),
